@@ -3,25 +3,64 @@ From Coq Require Import List String Bool. Import ListNotations. Open Scope strin
 From Cli Require Import CliIR.
 From Dyn Require Import CliGen.
 
+(* the text the CLI writes for a library result r *)
+Definition terminate (r : string) : string := r ++ (if str_endswith r nl then "" else nl).
+
+(* str_endswith is "some suffix equals suf" *)
+Lemma endswith_spec s suf : str_endswith s suf = true <-> exists p, s = p ++ suf.
+Proof.
+  induction s as [|a s IH]; cbn [str_endswith].
+  - destruct (String.eqb "" suf) eqn:E.
+    + apply String.eqb_eq in E. subst suf. split; [exists ""; reflexivity|reflexivity].
+    + split; [discriminate|]. intros [p Hp]. destruct p; cbn in Hp; [subst suf; rewrite String.eqb_refl in E; discriminate|discriminate].
+  - destruct (String.eqb (String a s) suf) eqn:E.
+    + apply String.eqb_eq in E. split; [exists ""; cbn; congruence|reflexivity].
+    + rewrite IH. split.
+      * intros [p Hp]. exists (String a p). cbn. congruence.
+      * intros [p Hp]. destruct p as [|b p]; cbn in Hp; [subst suf; rewrite String.eqb_refl in E; discriminate|].
+        injection Hp as -> Hs. exists p. exact Hs.
+Qed.
+(* C16 "adding a line terminator only when that text lacks one": the written text always ends in a newline, and a
+   result that already ends in one is written unchanged (so one final newline stays one) *)
+Lemma sapp_nil_r (s : string) : s ++ "" = s.
+Proof. induction s as [|a s IH]; cbn; congruence. Qed.
+Theorem terminate_spec r : (exists p, terminate r = p ++ nl) /\ ((exists p, r = p ++ nl) -> terminate r = r) /\
+                           ((~ exists p, r = p ++ nl) -> terminate r = r ++ nl).
+Proof.
+  unfold terminate. destruct (str_endswith r nl) eqn:E.
+  - pose proof (proj1 (endswith_spec r nl) E) as [p Hp]. rewrite sapp_nil_r. split; [exists p; exact Hp|].
+    split; [reflexivity|]. intros H. exfalso. apply H. exists p. exact Hp.
+  - split; [exists r; reflexivity|]. split; [|reflexivity]. intros H. apply endswith_spec in H. congruence.
+Qed.
+
 Section C16.
   Variable doc : Type.
   Variables (lib_parse : string -> doc) (lib_set : doc -> string -> string -> option string)
             (lib_rm : doc -> string -> option string) (lib_err : doc -> bool) (lib_rebuild : doc -> string).
   Notation main' := (main doc lib_parse lib_set lib_rm lib_err lib_rebuild arms).
 
-  (* set: the library's result followed by one newline and status 0; a raising call prints nothing on stdout, status 1 *)
+  (* set / rm: the library's result, terminated by a newline only when it lacks one, status 0;
+     a raising call prints nothing on stdout, status 1 *)
   Theorem C16_set i :
     main' "set" i =
     match lib_set (lib_parse (stdin_text i)) (a_npath i) (a_value i) with
-    | Some r => Done (r ++ nl) false 0
+    | Some r => Done (terminate r) false 0
     | None => Done "" true 1 end.
-  Proof. vm_compute. (destruct (lib_set _ _ _); reflexivity). Qed.
+  Proof.
+    destruct i as [txt np vl]. cbn [stdin_text a_npath a_value]. unfold terminate.
+    destruct (lib_set (lib_parse txt) np vl) as [r|] eqn:E; cbv -[str_endswith]; rewrite E; cbv -[str_endswith]; [|reflexivity].
+    destruct (str_endswith r _); reflexivity.
+  Qed.
   Theorem C16_rm i :
     main' "rm" i =
     match lib_rm (lib_parse (stdin_text i)) (a_npath i) with
-    | Some r => Done (r ++ nl) false 0
+    | Some r => Done (terminate r) false 0
     | None => Done "" true 1 end.
-  Proof. vm_compute. (destruct (lib_rm _ _); reflexivity). Qed.
+  Proof.
+    destruct i as [txt np vl]. cbn [stdin_text a_npath a_value]. unfold terminate.
+    destruct (lib_rm (lib_parse txt) np) as [r|] eqn:E; cbv -[str_endswith]; rewrite E; cbv -[str_endswith]; [|reflexivity].
+    destruct (str_endswith r _); reflexivity.
+  Qed.
   (* test: OK/0 exactly when the text has no syntax error and is reproduced byte for byte *)
   Theorem C16_test i :
     let d := lib_parse (stdin_text i) in
@@ -41,7 +80,7 @@ Section C16.
     reflexivity.
   Qed.
 End C16.
-Print Assumptions C16_set. Print Assumptions C16_test. Print Assumptions C16_unknown.
+Print Assumptions C16_set. Print Assumptions C16_test. Print Assumptions C16_unknown. Print Assumptions terminate_spec.
 
 (* C07, CLI half: a text with a syntax error is reported as Fail with status 1, whatever rebuild returns *)
 Section C07.
